@@ -17,7 +17,7 @@ PROPERTY = "C20"
 LEVEL = "model_checking"
 ENCODED = ["twisted.web.http_headers:_sanitizeLinearWhitespace", "twisted.web.http_headers:_NameEncoder.encode",
            "twisted.web.http_headers:Headers.setRawHeaders", "twisted.web.http_headers:Headers.addRawHeader",
-           "twisted.web.http_headers:Headers.getRawHeaders", "twisted.web.http_headers:Headers.getAllRawHeaders",
+           "twisted.web.http_headers:Headers.getRawHeaders", "twisted.web.http_headers:Headers.hasHeader", "twisted.web.http_headers:Headers.getAllRawHeaders",
            "twisted.web._abnf:_istoken", "twisted.web.http:Request.setResponseCode",
            "twisted.web.http:Request.setHeader", "twisted.web.http:Request.addCookie",
            "twisted.web.http:Request.write", "twisted.web.http:Request.finish",
@@ -27,7 +27,8 @@ BOUNDS = {"quick": {"s": 3, "nm": 2, "hv": 2, "rs": 3, "ck": 1, "cv": 2, "ca": 1
           "thorough": {"s": 5, "nm": 3, "hv": 3, "rs": 4, "ck": 2, "cv": 2, "ca": 2, "bw": 3}}
 B = {}
 BOUNDS_TEXT = ("_sanitizeLinearWhitespace on every text of <= s bytes; header names of <= nm bytes (bytes or "
-               "text, set or add); header values of <= hv characters (bytes 0..255, or text of any code "
+               "text, set or add), each used three times (same object twice, then a new object) and, at the "
+               "response level, set twice + added once before the response is written; header values of <= hv characters (bytes 0..255, or text of any code "
                "point, UTF-8 encoded by the real code); reason phrase of <= rs bytes; cookie key <= ck / value <= "
                "cv bytes alone, or value <= 1 byte with one attribute (Expires/Domain/Path/Max-Age/Comment) of <= ca bytes; the same as "
                "text (any code point) with key and value symbolic when there is no attribute and fixed when "
@@ -47,8 +48,11 @@ ASSUMPTIONS = ["LBytes reproduces bytes semantics for the operations used, in pa
                "real code on the concrete vectors below",
                "str.encode('utf8') is replaced in the lifted world by a pure-Python encoder validated against "
                "CPython's on all boundary code points on every run",
-               "Headers' dict is an equality-lookup ordered map and the header-name cache skips symbolic "
-               "names in the lifted world (both only avoid hashing symbolic names)",
+               "Headers' dict and the module-global header-name cache (_nameEncoder._canonicalHeaderCache) are "
+               "equality-lookup ordered maps in the lifted world (this only avoids hashing symbolic names: a name "
+               "used twice DOES hit the cache); every harness call starts from an EMPTY name cache (cleared on the "
+               "real module in replay), so paths are independent; names cached by earlier, unrelated calls in a "
+               "long-lived process are outside the bound except through the repeated uses made here",
                "the fake channel provides getPeer/getHost/requestDone/factory=None; its writeHeaders/write/"
                "writeSequence are HTTPChannel's own functions"]
 EXPLANATION = ("lifted real Headers / Request / HTTPChannel.writeHeaders on symbolic reason, header, cookie and "
@@ -96,31 +100,21 @@ LA = lift.lift("twisted.web._abnf")
 LH = lift.lift("twisted.web.http_headers", overrides={"_istoken": LA._istoken}, encode_calls=True)
 
 
-class _NameCache:
-    """stands in for _NameEncoder._canonicalHeaderCache in the lifted world: names with symbolic
-    content take the uncached code path (a dict lookup would hash = realise them); concrete names are
-    cached exactly as in the real class"""
-
-    def __init__(self):
-        self.d = {}
-
-    def get(self, k, d=None):
-        if lbytes._is_conc(k if isinstance(k, str) else k.s):
-            return self.d.get(k, d)
-        return d
-
-    def __len__(self):
-        return len(self.d)
-
-    def __setitem__(self, k, v):
-        if lbytes._is_conc(k if isinstance(k, str) else k.s) and lbytes._is_conc(v.s):
-            self.d[k] = v
+def fresh_name_cache():
+    """every harness starts from an empty header-name cache.  `_nameEncoder._canonicalHeaderCache` is a
+    module-global dict that outlives a call (and, under CrossHair, a path): real world -> cleared; lifted
+    world -> a fresh equality-lookup map (a dict would hash = realise a symbolic name), so that a name
+    used twice inside one harness call DOES take the cached code path the second time"""
+    if LH.__real__:
+        LH._nameEncoder._canonicalHeaderCache.clear()
+    else:
+        LH._nameEncoder._canonicalHeaderCache = lbytes.SymDict()
 
 
 if LH.__real__:
     Headers = LH.Headers
 else:
-    LH._nameEncoder._canonicalHeaderCache = _NameCache()
+    fresh_name_cache()
     LH._NameEncoder._caseMappings = lbytes.SymDict(LH._NameEncoder._caseMappings)
 
     class Headers(LH.Headers):
@@ -439,37 +433,31 @@ def sanitize(value: str) -> bool:
     return eql(ref_sanitize(cs), got)
 
 
-def header_name(name: str, add: bool, as_text: bool) -> bool:
-    """
-    pre: len(name) <= B['nm'] and all_latin1(name)
-    post: _
-    """
-    cs = chars_of(name, B['nm'])
-    nm = text_of(cs)
-    if not as_text:
-        nm = b(nm)
-    h = Headers()
-    ok = True
+def _items(h):
+    return [(t(k), [t(x) for x in vs]) for k, vs in h.getAllRawHeaders()]
+
+
+def _put(h, nm, add, v):
     try:
         if add:
-            h.addRawHeader(nm, b("v"))
+            h.addRawHeader(nm, b(v))
         else:
-            h.setRawHeaders(nm, [b("v")])
+            h.setRawHeaders(nm, [b(v)])
     except LH.InvalidHeaderName:
-        ok = False
-    items = [(t(k), [t(x) for x in vs]) for k, vs in h.getAllRawHeaders()]
-    api.obs((ok, items))
-    cover()
+        return False
+    return True
+
+
+def is_token(cs):
     valid = len(cs) > 0
     for c in cs:
         if not lbytes._char_in(c, TCHAR):
             valid = False
-    if not valid:
-        # refused when set, nothing stored
-        return (not ok) and len(items) == 0
-    if not ok or len(items) != 1:
-        return False
-    key = [c for c in items[0][0]]
+    return valid
+
+
+def ieq(cs, key):
+    """ASCII case-insensitive equality of two character lists"""
     if len(key) != len(cs):
         return False
     for i in range(len(cs)):
@@ -480,10 +468,47 @@ def header_name(name: str, add: bool, as_text: bool) -> bool:
             k += 32
         if a != k:
             return False
-    if not (len(items[0][1]) == 1 and items[0][1][0] == "v"):
+    return True
+
+
+def header_name(name: str, add: bool, as_text: bool) -> bool:
+    """
+    pre: len(name) <= B['nm'] and all_latin1(name)
+    post: _
+    """
+    fresh_name_cache()
+    cs = chars_of(name, B['nm'])
+    nm = text_of(cs)
+    if not as_text:
+        nm = b(nm)
+    h = Headers()
+    # the SAME name three times: first use, second use on the same object (the name encoder's cache has
+    # seen the name by now), third use on a new object with the other operation
+    ok1 = _put(h, nm, add, "v")
+    ok2 = _put(h, nm, add, "w")
+    h2 = Headers()
+    ok3 = _put(h2, nm, not add, "z")
+    items = _items(h)
+    items2 = _items(h2)
+    api.obs((ok1, ok2, ok3, items, items2))
+    cover()
+    if not is_token(cs):
+        # refused every time it is set, nothing stored anywhere
+        return (not ok1) and (not ok2) and (not ok3) and len(items) == 0 and len(items2) == 0
+    if not (ok1 and ok2 and ok3) or len(items) != 1 or len(items2) != 1:
+        return False
+    if not (ieq(cs, [c for c in items[0][0]]) and ieq(cs, [c for c in items2[0][0]])):
+        return False
+    vals = items[0][1]
+    if add:
+        if not (len(vals) == 2 and vals[0] == "v" and vals[1] == "w"):
+            return False
+    elif not (len(vals) == 1 and vals[0] == "w"):
+        return False
+    if not (len(items2[0][1]) == 1 and items2[0][1][0] == "z"):
         return False
     got = h.getRawHeaders(nm)
-    return h.hasHeader(nm) and got is not None and len(got) == 1
+    return h.hasHeader(nm) and got is not None and len(got) == len(vals)
 
 
 def header_value(value: str, as_text: bool, add: bool) -> bool:
@@ -492,6 +517,7 @@ def header_value(value: str, as_text: bool, add: bool) -> bool:
     pre: as_text or all_latin1(value)
     post: _
     """
+    fresh_name_cache()
     cs = chars_of(value, B['hv'])
     v = text_of(cs)
     if not as_text:
@@ -525,6 +551,7 @@ def resp_reason(reason: str, ver11: bool, head: bool, ci: int) -> bool:
     pre: 0 <= ci < 4
     post: _
     """
+    fresh_name_cache()
     code = pick_code(ci)
     cs = chars_of(reason, B['rs'])
     ch = respond(ver11, head, code, b(text_of(cs)), [(b("content-type"), b("text/html"))], [], [b("hi")])
@@ -542,6 +569,7 @@ def resp_header(value: str, as_text: bool, ver11: bool, ci: int) -> bool:
     pre: 0 <= ci < 4
     post: _
     """
+    fresh_name_cache()
     code = pick_code(ci)
     cs = chars_of(value, B['hv'])
     v = text_of(cs)
@@ -554,6 +582,77 @@ def resp_header(value: str, as_text: bool, ver11: bool, ci: int) -> bool:
     reason = {200: "OK", 204: "No Content", 304: "Not Modified", 100: "Continue"}[code]
     return check_response(ch, ver11, False, code, list(reason),
                           [("X-A", exp), ("Content-Type", list("text/html"))], [], list("hi"), False)
+
+
+def resp_badname(name: str, as_text: bool, ver11: bool) -> bool:
+    """
+    pre: 1 <= len(name) <= B['nm'] and all_latin1(name)
+    post: _
+    """
+    fresh_name_cache()
+    cs = chars_of(name, B['nm'])
+    nm = text_of(cs)
+    if not as_text:
+        nm = b(nm)
+    ch = Chan()
+    r = L.Request(ch, False)
+    r.method = b("GET")
+    r.clientproto = b("HTTP/1.1" if ver11 else "HTTP/1.0")
+    r.uri = b("/")
+    r.setHeader(b("content-type"), b("text/html"))
+    oks = []
+    # the application tries the same name three times (second and third time the name encoder has
+    # already seen it), then answers
+    for v in ("1", "2"):
+        try:
+            r.setHeader(nm, b(v))
+            oks.append(True)
+        except LH.InvalidHeaderName:
+            oks.append(False)
+    try:
+        r.responseHeaders.addRawHeader(nm, b("3"))
+        oks.append(True)
+    except LH.InvalidHeaderName:
+        oks.append(False)
+    r.write(b("hi"))
+    r.finish()
+    api.obs((oks, ch.transport.w))
+    cover()
+    tk = tokenize(flat(ch.transport.w))
+    if tk is None:
+        return False
+    status, hlines, rest = tk
+    if not eql(list(("HTTP/1.1" if ver11 else "HTTP/1.0") + " 200 OK"), status):
+        return False
+    hs = []
+    for ln in hlines:
+        nv = split_header(ln)
+        if nv is None:
+            return False
+        hs.append(nv)
+    valid = is_token(cs)
+    exp = [("Content-Type", list("text/html"))]
+    if valid:
+        exp = exp + [(None, ["2"]), (None, ["3"])]
+    if ver11:
+        exp.append(("Transfer-Encoding", list("chunked")))
+    if valid != (oks[0] and oks[1] and oks[2]) or valid == ((not oks[0]) and (not oks[1]) and (not oks[2])):
+        return False
+    # an invalid name leaves no trace on the wire: exactly the other header lines
+    if len(hs) != len(exp):
+        return False
+    for i in range(len(exp)):
+        if exp[i][0] is None:
+            if not ieq(cs, hs[i][0]):
+                return False
+        elif not eql(list(exp[i][0]), hs[i][0]):
+            return False
+        if not eql(exp[i][1], hs[i][1]):
+            return False
+    if ver11:
+        got = dechunk(rest)
+        return got is not None and eql(list("hi"), got)
+    return eql(list("hi"), rest)
 
 
 ATTRS = [None, "expires", "domain", "path", "max_age", "comment"]
@@ -569,6 +668,7 @@ def resp_cookie(k: str, v: str, a: str, which: int, as_text: bool) -> bool:
     pre: not as_text or (which == 0 and len(v) <= 1) or (k == "k" and v == "v")
     post: _
     """
+    fresh_name_cache()
     w = 0
     for i in range(6):
         if which == i:
@@ -605,6 +705,7 @@ def resp_body(w1: str, w2: str, ver11: bool, head: bool, ci: int, cl: bool) -> b
     pre: 0 <= ci < 4
     post: _
     """
+    fresh_name_cache()
     code = pick_code(ci)
     c1, c2 = chars_of(w1, B['bw']), chars_of(w2, B['bw'])
     hs = []
@@ -648,6 +749,9 @@ HARNESSES = [
     H(resp_header, shards=lambda tier: [("len(value) == %d" % n, "as_text == %s" % x)
                                         for n in range(BOUNDS[tier]["hv"] + 1) for x in (False, True)],
       timeout={"quick": 60, "thorough": 1200}),
+    H(resp_badname, shards=lambda tier: [("len(name) == %d" % n, "as_text == %s" % x)
+                                         for n in range(1, BOUNDS[tier]["nm"] + 1) for x in (False, True)],
+      timeout={"quick": 90, "thorough": 1500}),
     H(resp_cookie, shards=lambda tier: [("which == %d" % w, "as_text == %s" % x)
                                         for w in range(6) for x in (False, True)],
       timeout={"quick": 90, "thorough": 1200}),
@@ -667,6 +771,8 @@ VECTORS = {
                     (" ", False, True, 3)],
     "resp_header": [("a\rb", False, True, 0), ("\r\n", False, False, 0), ("\n", True, True, 1), ("Ā", True, True, 2),
                     ("x:", False, True, 3), ("\x85 ", True, False, 0)],
+    "resp_badname": [("\r\n", False, True), ("a\n", True, True), ("x-", False, False), (":", True, False),
+                     ("te", False, True), ("\x00", False, True), ("a ", True, False)],
     "resp_cookie": [("k", "v", "", 0, False), ("\r", "\n", ";", 1, False), (";", "=", "\n", 2, True),
                     ("\xe9", "Ā", "/", 3, True), ("k", "\r\n", "\r", 4, False), ("", "v;", ";", 5, False)],
     "resp_body": [("ab", "cd", True, False, 0, False), ("ab", "", True, False, 0, True), ("\r\n", "0", True, False, 0, False),
